@@ -174,7 +174,16 @@ class EffectivePotential(ABC):
             if fieldScale > 0 and 0 < T[i] ** 4 / fieldScale < 1:
                 tolerance = (1e-5 if tol is None else tol) * T[i] ** 4 / fieldScale
 
-            res = scipy.optimize.minimize(evaluateWrapper, guess, tol=tolerance)
+            # The finite-difference step of the minimiser's numerical gradient is absolute
+            # as well (1.49e-8 by default): take it relative to the field scale when the
+            # latter is large, otherwise Veff(phi + step) - Veff(phi) drowns in rounding.
+            options = {}
+            if fieldScale > 1:
+                options["eps"] = 1.4901161193847656e-08 * fieldScale
+
+            res = scipy.optimize.minimize(
+                evaluateWrapper, guess, tol=tolerance, options=options
+            )
 
             resLocation[i] = res.x
             resValue[i] = res.fun
